@@ -19,6 +19,10 @@ configuration of
   (d) PYTHONHASHSEED in {0,1,2,3,4242}: serial mapper in a separate interpreter,
   (e) cache history: fresh cache_dir, cold -> warm -> warm in one interpreter and warm
       again in a second interpreter (whether ``_make_pmappings`` really ran is observed),
+  (f) cache histories over DIFFERENT settings: for each mapper setting of VARIANTS (one
+      non-default value each) the cache_dir is first filled by a run with that setting,
+      then used by the spec itself, then by the other setting again (warm); every run must
+      return what the same call returns without a cache,
 
 and the canonical result -- the sorted list of (energy, latency, per-memory usage, all to
 9 significant digits; canonical LoopTree string of ``Total<SEP>mapping(_for_model=True)``)
@@ -77,6 +81,7 @@ every run, a mutant counts as caught when a NEW family appears):
 from __future__ import annotations
 
 import functools
+import hashlib
 import json
 import os
 import shutil
@@ -92,7 +97,8 @@ MANIFEST = {
     "text": "for each spec of a small family the real mapper is run under every n_jobs in 1/2/3/4/16, under every "
             "completion order (N<=5 jobs) or every <=1/<=2-deviation order + reversal/rotations (larger N) of each of its "
             "parallel call sites (controlled scheduler substituted for joblib.Parallel), in shared and isolated execution, "
-            "under 5 hash seeds in fresh interpreters and with a cold/warm/warm on-disk cache, and the canonical front "
+            "under 5 hash seeds in fresh interpreters, with a cold/warm/warm on-disk cache and with a cache shared by runs that "
+            "differ in one mapper setting (every setting of a small alphabet), and the canonical front "
             "(objective vectors + LoopTree strings) must equal the serial baseline; right level because the only sources of "
             "nondeterminism are the completion order, the hash seed and the cache, all of which are enumerated",
     "note": "trusted: joblib's delivery contract as modelled by mc/sched.VirtualParallel (tied to real loky by free-running "
@@ -115,7 +121,9 @@ ASSUMPTIONS = [
     "order, uuids and timing columns are not part of the property",
     "one call site is perturbed at a time (all others in submission order) plus four joint named orders; sites opened "
     "inside a job (nested) run in submission order",
-    "five PYTHONHASHSEED values; cache history cold/warm/warm + warm in a second interpreter",
+    "five PYTHONHASHSEED values; cache history cold/warm/warm + warm in a second interpreter; cache histories "
+    "other-setting -> this spec -> other-setting over a shared cache_dir for one non-default value of each setting in "
+    "VARIANTS; the spec YAML is read from a content-named file so that equal specs really hit the cache",
     "per-process memo caches of the harness worker (it runs many configurations) are part of the environment",
 ]
 
@@ -165,13 +173,44 @@ def _sig(x):
     return float(f"{float(x):.9g}")
 
 
-def build(name):
+# one non-default value per mapper setting that changes which pmappings / mappings are produced: the
+# alphabet of the cache-HISTORY configurations (a cache_dir shared by runs that differ in one setting)
+VARIANTS = (
+    ("max_pmapping_templates_per_einsum", 1),
+    ("max_fused_loops", 0),
+    ("metrics", "E"),
+    ("max_loops_minus_ranks", 0),
+    ("explore_loop_orders", False),
+    ("objective_tolerance", 0.5),
+    ("explore_imperfect_temporal_loops", True),
+)
+QUICK_VARIANTS = 3
+
+
+def build(name, knobs=()):
     from mc import specs as S
 
     d = SPECS[name]
     wl = getattr(S, d["wl"][0])(*d["wl"][1])
     arch = S.H2(**d["h2"])
-    return S.build_spec(arch, wl, S.Knobs(d["metrics"])), [m.name for m in arch.memories]
+    metrics = dict(knobs).get("metrics", d["metrics"])
+    extra = tuple((k, v) for k, v in knobs if k != "metrics")
+    # The Spec remembers the path of the YAML it was read from (_yaml_source) and joblib.Memory hashes it
+    # with the rest of the Spec: a randomly named temporary file would make every run a cache miss.  The
+    # file name is therefore a function of the content (as for a user who maps the same file twice).
+    from accelforge.frontend.spec import Spec
+
+    txt = S.spec_yaml(arch, wl)
+    sdir = os.environ.get("VERIF_C20_SPECDIR") or os.path.join(tempfile.gettempdir(), "verif-c20-specs")
+    os.makedirs(sdir, exist_ok=True)
+    path = os.path.join(sdir, f"spec-{hashlib.sha1(txt.encode()).hexdigest()[:16]}.yaml")
+    if not os.path.exists(path):
+        tmp = f"{path}.{os.getpid()}"
+        with open(tmp, "w") as f:
+            f.write(txt)
+        os.replace(tmp, path)
+    spec = S.Knobs(metrics, extra).apply(Spec.from_yaml(path))
+    return spec, [m.name for m in arch.memories]
 
 
 def canonical(r, mems):
@@ -188,12 +227,12 @@ def canonical(r, mems):
     return rows
 
 
-def run_mapper(name, cache_dir=None):
+def run_mapper(name, cache_dir=None, knobs=()):
     """One run of the real mapper in this process under whatever Parallel / n_jobs is
     installed.  An implementation exception is an observation."""
     from accelforge.mapper.FFM.main import map_workload_to_arch
 
-    spec, mems = build(name)
+    spec, mems = build(name, tuple(tuple(k) for k in knobs))
     tmp = tempfile.mkdtemp(prefix="run-")  # accelforge's _memmap_read leaves files behind
     old = tempfile.tempdir
     tempfile.tempdir = tmp
@@ -249,7 +288,7 @@ def child_main():
         res = []
         for run in args["runs"]:
             made.append(False)
-            res.append(run_mapper(args["spec"], cache_dir=run.get("cache_dir")))
+            res.append(run_mapper(args["spec"], cache_dir=run.get("cache_dir"), knobs=run.get("knobs", ())))
         out = {"results": res, "made": made, "hashseed": os.environ.get("PYTHONHASHSEED")}
     elif args["kind"] == "real":
         out = {"items": []}
@@ -392,6 +431,7 @@ def configs_for(name, quick):
     d = SPECS[name]
     policy = d.get("quick_policy", d["policy"]) if quick else d["policy"]
     out = [("cache",)]
+    out += [("cachehist", i) for i in range(QUICK_VARIANTS if quick else len(VARIANTS))]
     out += [("hashseed", s) for s in HASHSEEDS]
     if d["isolated"] and not quick:  # ~100 CPU-s per run (jobs in fresh forks run ~100x slower): thorough only
         out += [("isolated", "default"), ("isolated", "reversal")]
@@ -490,6 +530,25 @@ def evaluate(name, cfg):
             shutil.rmtree(cdir, ignore_errors=True)
         info["make_pmappings_ran"] = a["made"] + b["made"]  # expected [True, False, False, False]
         return a["results"] + b["results"], not all(info["make_pmappings_ran"][1:]), info, None
+    if k == "cachehist":
+        # history: [other setting, cold] -> [this spec, same cache_dir] -> [other setting, warm]; every run must
+        # return what the same call returns without a cache (the variant's own cache-less run is its reference)
+        kn = [list(VARIANTS[cfg[1]])]
+        cdir = tempfile.mkdtemp(prefix="cache-", dir=os.getcwd())
+        try:
+            a = run_child({"kind": "serial", "spec": name,
+                           "runs": [{"knobs": kn}, {"knobs": kn, "cache_dir": cdir}, {"cache_dir": cdir},
+                                    {"knobs": kn, "cache_dir": cdir}]}, tag="cachehist")
+        finally:
+            shutil.rmtree(cdir, ignore_errors=True)
+        ref, cold, mine, warm = a["results"]
+        base = _BASE[name]
+        info.update(setting=kn[0], make_pmappings_ran=a["made"],  # expected [True, True, True, False]
+                    setting_changes_result=ref != base)
+        obs = [mine] + [base if r == ref else r for r in (cold, warm)]
+        info["runs_differing"] = [n for n, o in zip(("this-spec-after-other-setting", "other-setting-cold",
+                                                     "other-setting-warm"), obs) if o != base]
+        return obs, (not a["made"][3]) and ref != base, info, None
     raise ValueError(cfg)
 
 
@@ -508,7 +567,7 @@ def family_of(name, cfg, info, sch, observed, base):
         if k == "joint":
             return f"schedule/joint-{cfg[1]}/{kind}", None
         return f"mode-isolated/{kind}", None
-    return {"njobs": "n_jobs", "hashseed": "hashseed", "cache": "cache"}[k] + f"/{kind}", None
+    return {"njobs": "n_jobs", "hashseed": "hashseed", "cache": "cache", "cachehist": "cache-history"}[k] + f"/{kind}", None
 
 
 def body(cfg):
@@ -619,6 +678,7 @@ def _run(ctx):
     os.makedirs(tmp, exist_ok=True)
     tempfile.tempdir = tmp  # NOT os.environ["TMPDIR"]: pydot's vendored tempfile caches it for good
     os.environ.setdefault("NUMBA_CACHE_DIR", NUMBA_CACHE)
+    os.environ["VERIF_C20_SPECDIR"] = os.path.join(ctx.scratch, "specs")  # inherited by the child interpreters
     import accelforge.mapper.FFM.main  # noqa: F401  (import once, before forking)
 
     # baselines (serial, hash seed of this process = 0, no cache) and the call-site traces
@@ -678,7 +738,8 @@ def _run(ctx):
                                                             else SPECS[n]["policy"])} for n in names},
               n_jobs=list(N_JOBS), schedule_n_jobs=SCHED_N_JOBS, hashseeds=list(HASHSEEDS), joint_orders=list(JOINT),
               max_deviations="1 (named orders only beyond dev1_upto)" if q else "2 up to dev2_upto jobs, else 1",
-              cache="cold,warm,warm + warm in a 2nd interpreter")
+              cache="cold,warm,warm + warm in a 2nd interpreter",
+              cache_history_settings=[list(v) for v in (VARIANTS[:QUICK_VARIANTS] if q else VARIANTS)])
 
 
 # ----------------------------- replay -----------------------------
